@@ -32,7 +32,7 @@ def model_and_replay(c, mode, emit_cfgs, check_cfgs):
     def contract_one():
         cfg = c.write_cfg("itermap", "OrderedMap_chk",
                           constants={"Keys": keyset(2), "Iters": [1, 2], "MaxAdds": 3},
-                          invariants=["Sorted", "UniqueKeys", "CursorsOK"], view="View")
+                          invariants=["Sorted", "UniqueKeys", "CursorsOK", "NextNAgrees"], view="View")
         c.tlc("itermap", "OrderedMap", cfg, workers=4, label="OrderedMap-contract")
 
     jobs = [lambda cf=cf: emit_one(cf) for cf in emit_cfgs] + [lambda cf=cf: check_one(cf) for cf in check_cfgs] + [contract_one]
@@ -46,7 +46,7 @@ def drive_and_validate(c, mode, ntr, steps):
     trace = c.path("trace", "itermap.ndjson")
     c.run_vh(["drive", "itermap", "-seed", c.seed, "-n", ntr, "-out", trace, "-x", "steps=%d" % steps])
     cfg = c.write_cfg("itermap", "OrderedMapTrace_" + mode,
-                      constants={"Iters": list(range(1, 101)), "CheckReplies": mode == "c10", "CheckRetention": mode == "c11"},
+                      constants={"Iters": list(range(1, 301)), "CheckReplies": mode == "c10", "CheckRetention": mode == "c11"},
                       postcondition="Accepted")
     ok, at, _ = c.validate_trace("itermap", "OrderedMapTrace", cfg, trace, timeout=1800)
     lines = open(trace).read().splitlines()
@@ -69,7 +69,7 @@ def drive_and_validate(c, mode, ntr, steps):
                 return lines     # a panic is C10's business
         c.report_failure(sig, {"rejected_at_line": at, "history": ctx,
                                "trace": {"comp": "itermap", "module": "OrderedMapTrace",
-                                         "constants": {"Iters": list(range(1, 101)), "CheckReplies": mode == "c10", "CheckRetention": mode == "c11"}}})
+                                         "constants": {"Iters": list(range(1, 301)), "CheckReplies": mode == "c10", "CheckRetention": mode == "c11"}}})
     return lines
 
 
@@ -95,7 +95,7 @@ def selftest(c, mode, lines):
     p = c.path("trace", "itermap-corrupt.ndjson")
     open(p, "w").write("\n".join(l2) + "\n")
     cfg = c.write_cfg("itermap", "OrderedMapTrace_" + mode,
-                      constants={"Iters": list(range(1, 101)), "CheckReplies": mode == "c10", "CheckRetention": mode == "c11"},
+                      constants={"Iters": list(range(1, 301)), "CheckReplies": mode == "c10", "CheckRetention": mode == "c11"},
                       postcondition="Accepted")
     ok, at, _ = c.validate_trace("itermap", "OrderedMapTrace", cfg, p, label="selftest")
     c.selftest = {"ran": True, "corrupted_line": i + 1, "rejected_at_line": at, "detected": (not ok) and at == i + 1}
